@@ -13,13 +13,13 @@
 
 Only the statement shapes listed in the parsers below are understood.  Anything else is a loud
 failure (exit 1): the translation tie is then reported broken, never silently skipped.
-Python 3, stdlib only.  Usage: c12_extract.py [--repo /repo] [--out coq/C12/Gen.v]
+Python 3, stdlib only.  Usage: c12_extract.py [--repo DIR] [--out coq/C12/Gen.v]   (default repo: $FV_REPO or /repo)
 """
 import os
 import re
 import sys
 
-REPO = "/repo"
+REPO = os.environ.get("FV_REPO", "/repo")   # `./fv mutate` points this at its private patched copy
 OUT = os.path.join(os.path.dirname(os.path.dirname(os.path.abspath(__file__))), "coq", "C12", "Gen.v")
 
 # size_of / align_of on the harness' target (x86_64 / aarch64, usize = 64 bit).  The harness re-checks
